@@ -114,9 +114,7 @@ fn main() {
             }
         }
     }
-    if prop == "C02" {
-        watch::abort_is_violation(prop);
-    }
+    watch::abort_is_violation(prop, prop == "C02");
     let ctx = Ctx { tier, replay };
     let level = checks::level_of(prop);
     let mut rep = Report::new(prop, tier, level);
@@ -130,6 +128,10 @@ fn main() {
         }
         Err(_) => {
             eprintln!("MACHINERY: checker for {prop} panicked outside a guarded subject call");
+            // a verdict that was reached before still stands
+            if mdv_core::report::emergency_flush() {
+                std::process::exit(1);
+            }
             std::process::exit(2);
         }
     }
